@@ -1,279 +1,4 @@
-# hweight32-naive-wrong (family popcounts): of_hweight32_naive returned 4 for a word with 32 bits set
-hw8 0 
-hw8 1 0
-hw8 1 1
-hw8 2 0 1
-hw8 1 2
-hw8 2 0 2
-hw8 2 1 2
-hw8 3 0 1 2
-hw8 1 3
-hw8 2 0 3
-hw8 2 1 3
-hw8 3 0 1 3
-hw8 2 2 3
-hw8 3 0 2 3
-hw8 3 1 2 3
-hw8 4 0 1 2 3
-hw8 1 4
-hw8 2 0 4
-hw8 2 1 4
-hw8 3 0 1 4
-hw8 2 2 4
-hw8 3 0 2 4
-hw8 3 1 2 4
-hw8 4 0 1 2 4
-hw8 2 3 4
-hw8 3 0 3 4
-hw8 3 1 3 4
-hw8 4 0 1 3 4
-hw8 3 2 3 4
-hw8 4 0 2 3 4
-hw8 4 1 2 3 4
-hw8 5 0 1 2 3 4
-hw8 1 5
-hw8 2 0 5
-hw8 2 1 5
-hw8 3 0 1 5
-hw8 2 2 5
-hw8 3 0 2 5
-hw8 3 1 2 5
-hw8 4 0 1 2 5
-hw8 2 3 5
-hw8 3 0 3 5
-hw8 3 1 3 5
-hw8 4 0 1 3 5
-hw8 3 2 3 5
-hw8 4 0 2 3 5
-hw8 4 1 2 3 5
-hw8 5 0 1 2 3 5
-hw8 2 4 5
-hw8 3 0 4 5
-hw8 3 1 4 5
-hw8 4 0 1 4 5
-hw8 3 2 4 5
-hw8 4 0 2 4 5
-hw8 4 1 2 4 5
-hw8 5 0 1 2 4 5
-hw8 3 3 4 5
-hw8 4 0 3 4 5
-hw8 4 1 3 4 5
-hw8 5 0 1 3 4 5
-hw8 4 2 3 4 5
-hw8 5 0 2 3 4 5
-hw8 5 1 2 3 4 5
-hw8 6 0 1 2 3 4 5
-hw8 1 6
-hw8 2 0 6
-hw8 2 1 6
-hw8 3 0 1 6
-hw8 2 2 6
-hw8 3 0 2 6
-hw8 3 1 2 6
-hw8 4 0 1 2 6
-hw8 2 3 6
-hw8 3 0 3 6
-hw8 3 1 3 6
-hw8 4 0 1 3 6
-hw8 3 2 3 6
-hw8 4 0 2 3 6
-hw8 4 1 2 3 6
-hw8 5 0 1 2 3 6
-hw8 2 4 6
-hw8 3 0 4 6
-hw8 3 1 4 6
-hw8 4 0 1 4 6
-hw8 3 2 4 6
-hw8 4 0 2 4 6
-hw8 4 1 2 4 6
-hw8 5 0 1 2 4 6
-hw8 3 3 4 6
-hw8 4 0 3 4 6
-hw8 4 1 3 4 6
-hw8 5 0 1 3 4 6
-hw8 4 2 3 4 6
-hw8 5 0 2 3 4 6
-hw8 5 1 2 3 4 6
-hw8 6 0 1 2 3 4 6
-hw8 2 5 6
-hw8 3 0 5 6
-hw8 3 1 5 6
-hw8 4 0 1 5 6
-hw8 3 2 5 6
-hw8 4 0 2 5 6
-hw8 4 1 2 5 6
-hw8 5 0 1 2 5 6
-hw8 3 3 5 6
-hw8 4 0 3 5 6
-hw8 4 1 3 5 6
-hw8 5 0 1 3 5 6
-hw8 4 2 3 5 6
-hw8 5 0 2 3 5 6
-hw8 5 1 2 3 5 6
-hw8 6 0 1 2 3 5 6
-hw8 3 4 5 6
-hw8 4 0 4 5 6
-hw8 4 1 4 5 6
-hw8 5 0 1 4 5 6
-hw8 4 2 4 5 6
-hw8 5 0 2 4 5 6
-hw8 5 1 2 4 5 6
-hw8 6 0 1 2 4 5 6
-hw8 4 3 4 5 6
-hw8 5 0 3 4 5 6
-hw8 5 1 3 4 5 6
-hw8 6 0 1 3 4 5 6
-hw8 5 2 3 4 5 6
-hw8 6 0 2 3 4 5 6
-hw8 6 1 2 3 4 5 6
-hw8 7 0 1 2 3 4 5 6
-hw8 1 7
-hw8 2 0 7
-hw8 2 1 7
-hw8 3 0 1 7
-hw8 2 2 7
-hw8 3 0 2 7
-hw8 3 1 2 7
-hw8 4 0 1 2 7
-hw8 2 3 7
-hw8 3 0 3 7
-hw8 3 1 3 7
-hw8 4 0 1 3 7
-hw8 3 2 3 7
-hw8 4 0 2 3 7
-hw8 4 1 2 3 7
-hw8 5 0 1 2 3 7
-hw8 2 4 7
-hw8 3 0 4 7
-hw8 3 1 4 7
-hw8 4 0 1 4 7
-hw8 3 2 4 7
-hw8 4 0 2 4 7
-hw8 4 1 2 4 7
-hw8 5 0 1 2 4 7
-hw8 3 3 4 7
-hw8 4 0 3 4 7
-hw8 4 1 3 4 7
-hw8 5 0 1 3 4 7
-hw8 4 2 3 4 7
-hw8 5 0 2 3 4 7
-hw8 5 1 2 3 4 7
-hw8 6 0 1 2 3 4 7
-hw8 2 5 7
-hw8 3 0 5 7
-hw8 3 1 5 7
-hw8 4 0 1 5 7
-hw8 3 2 5 7
-hw8 4 0 2 5 7
-hw8 4 1 2 5 7
-hw8 5 0 1 2 5 7
-hw8 3 3 5 7
-hw8 4 0 3 5 7
-hw8 4 1 3 5 7
-hw8 5 0 1 3 5 7
-hw8 4 2 3 5 7
-hw8 5 0 2 3 5 7
-hw8 5 1 2 3 5 7
-hw8 6 0 1 2 3 5 7
-hw8 3 4 5 7
-hw8 4 0 4 5 7
-hw8 4 1 4 5 7
-hw8 5 0 1 4 5 7
-hw8 4 2 4 5 7
-hw8 5 0 2 4 5 7
-hw8 5 1 2 4 5 7
-hw8 6 0 1 2 4 5 7
-hw8 4 3 4 5 7
-hw8 5 0 3 4 5 7
-hw8 5 1 3 4 5 7
-hw8 6 0 1 3 4 5 7
-hw8 5 2 3 4 5 7
-hw8 6 0 2 3 4 5 7
-hw8 6 1 2 3 4 5 7
-hw8 7 0 1 2 3 4 5 7
-hw8 2 6 7
-hw8 3 0 6 7
-hw8 3 1 6 7
-hw8 4 0 1 6 7
-hw8 3 2 6 7
-hw8 4 0 2 6 7
-hw8 4 1 2 6 7
-hw8 5 0 1 2 6 7
-hw8 3 3 6 7
-hw8 4 0 3 6 7
-hw8 4 1 3 6 7
-hw8 5 0 1 3 6 7
-hw8 4 2 3 6 7
-hw8 5 0 2 3 6 7
-hw8 5 1 2 3 6 7
-hw8 6 0 1 2 3 6 7
-hw8 3 4 6 7
-hw8 4 0 4 6 7
-hw8 4 1 4 6 7
-hw8 5 0 1 4 6 7
-hw8 4 2 4 6 7
-hw8 5 0 2 4 6 7
-hw8 5 1 2 4 6 7
-hw8 6 0 1 2 4 6 7
-hw8 4 3 4 6 7
-hw8 5 0 3 4 6 7
-hw8 5 1 3 4 6 7
-hw8 6 0 1 3 4 6 7
-hw8 5 2 3 4 6 7
-hw8 6 0 2 3 4 6 7
-hw8 6 1 2 3 4 6 7
-hw8 7 0 1 2 3 4 6 7
-hw8 3 5 6 7
-hw8 4 0 5 6 7
-hw8 4 1 5 6 7
-hw8 5 0 1 5 6 7
-hw8 4 2 5 6 7
-hw8 5 0 2 5 6 7
-hw8 5 1 2 5 6 7
-hw8 6 0 1 2 5 6 7
-hw8 4 3 5 6 7
-hw8 5 0 3 5 6 7
-hw8 5 1 3 5 6 7
-hw8 6 0 1 3 5 6 7
-hw8 5 2 3 5 6 7
-hw8 6 0 2 3 5 6 7
-hw8 6 1 2 3 5 6 7
-hw8 7 0 1 2 3 5 6 7
-hw8 4 4 5 6 7
-hw8 5 0 4 5 6 7
-hw8 5 1 4 5 6 7
-hw8 6 0 1 4 5 6 7
-hw8 5 2 4 5 6 7
-hw8 6 0 2 4 5 6 7
-hw8 6 1 2 4 5 6 7
-hw8 7 0 1 2 4 5 6 7
-hw8 5 3 4 5 6 7
-hw8 6 0 3 4 5 6 7
-hw8 6 1 3 4 5 6 7
-hw8 7 0 1 3 4 5 6 7
-hw8 6 2 3 4 5 6 7
-hw8 7 0 2 3 4 5 6 7
-hw8 7 1 2 3 4 5 6 7
-hw8 8 0 1 2 3 4 5 6 7
-hw32 0
-hw32 32 0 1 2 3 4 5 6 7 8 9 10 11 12 13 14 15 16 17 18 19 20 21 22 23 24 25 26 27 28 29 30 31
-hw32 1 0
-hw32 1 1
-hw32 1 2
-hw32 1 3
-hw32 1 4
-hw32 1 5
-hw32 1 6
-hw32 1 7
-hw32 1 8
-hw32 1 9
-hw32 1 10
-hw32 1 11
-hw32 1 12
-hw32 1 13
-hw32 1 14
-hw32 1 15
-hw32 1 16
+# hweight32-naive-wrong (family popcounts): of_hweight32_naive returned 0 for a word with 1 bits set
 hw32 1 17
 hw32 1 18
 hw32 1 19
@@ -299,104 +24,4 @@ hw32 2 0 7
 hw32 2 0 8
 hw32 2 0 9
 hw32 2 0 10
-hw32 2 0 11
-hw32 2 0 12
-hw32 2 0 13
-hw32 2 0 14
-hw32 2 0 15
-hw32 2 0 16
-hw32 2 0 17
-hw32 2 0 18
-hw32 2 0 19
-hw32 2 0 20
-hw32 2 0 21
-hw32 2 0 22
-hw32 2 0 23
-hw32 2 0 24
-hw32 2 0 25
-hw32 2 0 26
-hw32 2 0 27
-hw32 2 0 28
-hw32 2 0 29
-hw32 2 0 30
-hw32 2 0 31
-hw32 2 1 2
-hw32 2 1 3
-hw32 2 1 4
-hw32 2 1 5
-hw32 2 1 6
-hw32 2 1 7
-hw32 2 1 8
-hw32 2 1 9
-hw32 2 1 10
-hw32 2 1 11
-hw32 2 1 12
-hw32 2 1 13
-hw32 2 1 14
-hw32 2 1 15
-hw32 2 1 16
-hw32 2 1 17
-hw32 2 1 18
-hw32 2 1 19
-hw32 2 1 20
-hw32 2 1 21
-hw32 2 1 22
-hw32 2 1 23
-hw32 2 1 24
-hw32 2 1 25
-hw32 2 1 26
-hw32 2 1 27
-hw32 2 1 28
-hw32 2 1 29
-hw32 2 1 30
-hw32 2 1 31
-hw32 2 2 3
-hw32 2 2 4
-hw32 2 2 5
-hw32 2 2 6
-hw32 2 2 7
-hw32 2 2 8
-hw32 2 2 9
-hw32 2 2 10
-hw32 2 2 11
-hw32 2 2 12
-hw32 2 2 13
-hw32 2 2 14
-hw32 2 2 15
-hw32 2 2 16
-hw32 2 2 17
-hw32 2 2 18
-hw32 2 2 19
-hw32 2 2 20
-hw32 2 2 21
-hw32 2 2 22
-hw32 2 2 23
-hw32 2 2 24
-hw32 2 2 25
-hw32 2 2 26
-hw32 2 2 27
-hw32 2 2 28
-hw32 2 2 29
-hw32 2 2 30
-hw32 2 2 31
-hw32 2 3 4
-hw32 2 3 5
-hw32 2 3 6
-hw32 2 3 7
-hw32 2 3 8
-hw32 2 3 9
-hw32 2 3 10
-hw32 2 3 11
-hw32 2 3 12
-hw32 2 3 13
-hw32 2 3 14
-hw32 2 3 15
-hw32 2 3 16
-hw32 2 3 17
-hw32 2 3 18
-hw32 2 3 19
-hw32 2 3 20
-hw32 2 3 21
-hw32 2 3 22
-hw32 2 3 23
 reset
